@@ -108,17 +108,16 @@ def embedding(which):
         elif which == 'all-pass-mask':
             # a mask that transmits everything over the whole band: N_fpm dx_fpm = lambda f / dx on each axis
             q = int(rng.integers(1, 3))
-            fpm_shape = (m * q, n * q)
-            fpm_dx = wvl * efl / (dx * n * q)
-            if m != n:
-                fpm_shape = (n * q, n * q)          # square band sampling; rows of the field see Q_rows = n q / m
-            ones = np.ones(fpm_shape)
+            # the band lambda f / dx is the same on both axes whatever the array shape: a square mask of max(m, n) q samples at
+            # dx_fpm = lambda f / (dx max(m, n) q) spans it on both, with at least one mask sample per resolution element
+            Nf = max(m, n) * q
+            fpm_dx = wvl * efl / (dx * Nf)
+            ones = np.ones((Nf, Nf))
             back = pr.to_fpm_and_back(f, dx, efl, wvl, ones, fpm_dx, method=method)
-            if m == n:
-                check('all-pass-returns-field-' + method, bool(np.allclose(back, f, atol=1e-7)))
-                sh = (float(rng.integers(1, 4)) * fpm_dx, float(rng.integers(-3, 0)) * fpm_dx)
-                back_s = pr.to_fpm_and_back(f, dx, efl, wvl, ones, fpm_dx, method=method, shift=sh)
-                check('all-pass-with-mask-shift-' + method, bool(np.allclose(abs(back_s), abs(f), atol=1e-7)))
+            check('all-pass-returns-field-' + method, bool(np.allclose(back, f, atol=1e-7)))
+            sh = (float(rng.integers(1, 4)) * fpm_dx, float(rng.integers(-3, 0)) * fpm_dx)
+            back_s = pr.to_fpm_and_back(f, dx, efl, wvl, ones, fpm_dx, method=method, shift=sh)
+            check('all-pass-with-mask-shift-' + method, bool(np.allclose(abs(back_s), abs(f), atol=1e-7)))
         else:
             fpm_dx = odx
             m1 = rng.random(S) * np.exp(1j * rng.uniform(-1, 1, S)) if rng.random() < 0.5 else rng.random(S)
